@@ -19,3 +19,4 @@ CFG = dict(
                 "say. Clock jumps are not issued while the loop is parked between computing its wait and arming the timer.",
      assumptions=["testing/synctest virtual time is correct", "hook points are add-only (commit in MANIFEST.hooks)"],
      timeout_quick=300, timeout_thorough=2400)
+CFG["rule"] += " Added after independently written breaking changes: Also: a CALLER of Enqueue/Dequeue parked after its stopped-test while a whole Close or another call completes (exhaustive); items due 90 min / 3 h ahead; and an injected fake clock (WithClock) a year away from the bubble's time in settled histories."
